@@ -517,8 +517,8 @@ def _cases(f: FuncInfo) -> Dict[str, Set[str]]:
     """type branch -> set of encodings handled (by explicit tests) in that branch."""
     head = None
     for st in f.node.body:
-        if isinstance(st, ast.If) and ast.unparse(st.test).replace(" ", "") in (
-                "base_data_type==DataType.A_BYTEFIELD", "DataType.A_BYTEFIELD==base_data_type"):
+        if isinstance(st, ast.If) and "base_data_type" in ast.unparse(st.test) and \
+                "A_BYTEFIELD" in ast.unparse(st.test):
             head = st
             break
     if head is None:
@@ -549,8 +549,17 @@ def _cases(f: FuncInfo) -> Dict[str, Set[str]]:
 
 def _case_coverage(prog: Program, run: Run) -> None:
     R = "C01.R5"
-    e = _cases(prog.func("EncodeState.emplace_atomic_value"))
-    d = _cases(prog.func("DecodeState.extract_atomic_value"))
+    # per type branch: the encodings the branch processes without reporting a problem, decided
+    # on the symbolic paths of the branch (fallback: the encodings its tests mention)
+    from . import atomic
+    ef, df = prog.func("EncodeState.emplace_atomic_value"), prog.func(
+        "DecodeState.extract_atomic_value")
+    e, d = _cases(ef), _cases(df)
+    eb, db_ = atomic.type_branches(ef), atomic.type_branches(df)
+    for k in set(e) & set(d) & set(eb) & set(db_):
+        ae, ad = atomic.accepted(prog, eb[k]), atomic.accepted(prog, db_[k])
+        if ae is not None and ad is not None:
+            e[k], d[k] = ae, ad
     for k in sorted(set(e) | set(d)):
         if k not in e or k not in d:
             run.violation(R, "emplace_atomic_value/extract_atomic_value", f"type-branch-{k}",
